@@ -203,12 +203,11 @@ func (st *fstate) call(ci ssa.CallInstruction) {
 		st.applyExtEffects(ins, ext, com, args)
 	}
 	handled := ext != nil
-	for _, callee := range callees {
+	apply := func(callee *ssa.Function, args []ssa.Value) bool {
 		s := st.a.Sums[callee]
 		if s == nil {
-			continue
+			return false
 		}
-		handled = true
 		name := ShortFunc(callee)
 		for _, loc := range sortedKeys(s.Writes) {
 			ml := st.mapLoc(loc, args)
@@ -267,6 +266,34 @@ func (st *fstate) call(ci ssa.CallInstruction) {
 				st.sum.GlobalsRead[g] = s.GlobalsRead[g].via(name)
 				st.changed = true
 			}
+		}
+		return true
+	}
+	for _, callee := range callees {
+		if apply(callee, args) {
+			handled = true
+		}
+	}
+	// a module function handed to an external callee (sync.Once.Do, sort.Slice, sync.Map.Range …) may be called by it:
+	// its effects on package-level state are effects of this call. Its parameters are supplied by the external callee
+	// (nothing of the caller's is passed: no argument mapping).
+	if sc := com.StaticCallee(); sc != nil && !st.a.inScope[sc] {
+		for _, av := range args {
+			fn := funcValueOf(av)
+			if fn == nil || !st.a.inScope[fn] {
+				continue
+			}
+			if o := OnceLiteral(ci, fn); o != "" {
+				// a literal without free variables run by Do of a package-level sync.Once: initialisation that
+				// happens at most once per process and cannot depend on any caller's arguments. It is kept out of the
+				// summaries (like package initialisers) and recorded for the global-inventory rule.
+				if st.a.OnceInit == nil {
+					st.a.OnceInit = map[*ssa.Function]string{}
+				}
+				st.a.OnceInit[fn] = o
+				continue
+			}
+			apply(fn, nil)
 		}
 	}
 	if !handled {
@@ -415,4 +442,30 @@ func SameAddr(a, b ssa.Value) bool {
 		return SameAddr(la.X, lb.X)
 	}
 	return false
+}
+
+func funcValueOf(v ssa.Value) *ssa.Function {
+	switch x := v.(type) {
+	case *ssa.Function:
+		return x
+	case *ssa.MakeClosure:
+		f, _ := x.Fn.(*ssa.Function)
+		return f
+	}
+	return nil
+}
+
+// OnceLiteral: ci is o.Do(fn) for a package-level sync.Once o and fn a function literal without free variables;
+// returns the Once's global key, else "".
+func OnceLiteral(ci ssa.CallInstruction, fn *ssa.Function) string {
+	com := ci.Common()
+	sc := com.StaticCallee()
+	if sc == nil || sc.String() != "(*sync.Once).Do" || len(com.Args) != 2 || len(fn.FreeVars) != 0 {
+		return ""
+	}
+	g, ok := com.Args[0].(*ssa.Global)
+	if !ok || funcValueOf(com.Args[1]) != fn {
+		return ""
+	}
+	return GlobalKey(g)
 }
